@@ -285,7 +285,8 @@ def run_job(job, scratch):
     res.rss_mb = rss
     if rc == -9:
         res.status = 'inconclusive'
-        res.reason = 'timeout after %ds' % job.timeout
+        res.reason = ('timeout after %ds' % job.timeout) if wall >= job.timeout - 1 else \
+            'cbmc was killed after %.0fs (out of memory?)' % wall
         res.wall = time.time() - t0
         return res
     props, msgs, solver, ok = parse_cbmc_json(out.decode(errors='replace'))
@@ -301,9 +302,14 @@ def run_job(job, scratch):
     wit = [p for p in res.props if p.kind == 'witness']
     res.witness_total = len(wit)
     res.witness_reached = sum(1 for p in wit if p.status == 'FAILURE')
-    res.failed = [p for p in res.props if p.kind != 'witness' and p.status != 'SUCCESS']
+    res.failed = [p for p in res.props if p.kind != 'witness' and p.status == 'FAILURE']
+    undecided = [p for p in res.props if p.status not in ('SUCCESS', 'FAILURE')]
     res.functions = sorted({p.func for p in res.props if p.func})
-    if job.expect_witness and (res.witness_total == 0 or res.witness_reached < res.witness_total):
+    if undecided:
+        res.status = 'inconclusive'
+        res.reason = '%d obligations left undecided by the solver (%s): %s' % (
+            len(undecided), ', '.join(sorted({p.status for p in undecided})), '; '.join(msgs[:2]))
+    elif job.expect_witness and (res.witness_total == 0 or res.witness_reached < res.witness_total):
         res.status = 'inconclusive'
         missing = [p.desc for p in wit if p.status != 'FAILURE']
         res.reason = 'vacuous harness: witness not reachable: %s' % (missing or 'no witness')
@@ -319,10 +325,35 @@ def run_job(job, scratch):
     return res
 
 
+MEM_BUDGET_GB = int(os.environ.get('VP_MEM_GB', '52'))
+
+
 def run_jobs(jobs, scratch, progress=True):
+    """runs jobs on NCPU workers; the sum of the memory limits of concurrently running jobs stays
+    below MEM_BUDGET_GB (a job's limit is an upper bound it rarely reaches, so limits <= 12 GB count as 3)"""
+    import threading
     results = {}
+    cond = threading.Condition()
+    used = [0]
+
+    def weight(j):
+        return j.mem_gb if j.mem_gb > 12 else 3
+
+    def guarded(j):
+        w = min(weight(j), MEM_BUDGET_GB)
+        with cond:
+            while used[0] + w > MEM_BUDGET_GB:
+                cond.wait()
+            used[0] += w
+        try:
+            return run_job(j, scratch)
+        finally:
+            with cond:
+                used[0] -= w
+                cond.notify_all()
+
     with cf.ThreadPoolExecutor(max_workers=NCPU) as ex:
-        futs = {ex.submit(run_job, j, scratch): j for j in jobs}
+        futs = {ex.submit(guarded, j): j for j in jobs}
         for fu in cf.as_completed(futs):
             j = futs[fu]
             try:
@@ -456,7 +487,15 @@ def replay_dir(d, verbose=False):
     env['ASAN_OPTIONS'] = 'detect_leaks=0:abort_on_error=0:exitcode=77'
     env['UBSAN_OPTIONS'] = 'halt_on_error=1:exitcode=78:print_stacktrace=1'
     env['VP_ENTRY'] = meta['entry']
-    rc, out, err, wall, rss = run_cmd([exe], 120, None, cwd=d, env=env)
+    want0 = meta.get('property_failed', {}).get('description', '')
+    unbounded = 'no bound on work' in want0
+    rc, out, err, wall, rss = run_cmd([exe], 20 if unbounded else 120, None, cwd=d, env=env)
+    if rc == -9 and unbounded:
+        try:
+            os.unlink(exe)
+        except OSError:
+            pass
+        return True, 'replay did not terminate within 20 s on this single datagram (unbounded work): ' + want0
     try:
         os.unlink(exe)
     except OSError:
